@@ -415,7 +415,7 @@ def main():
             if got != want:
                 form = q.split('(', 1)[0]
                 # mechanism, from observable features of the witness
-                pos_in_steps = [i for i, st in enumerate(steps) if st == ('query', q)][-1]
+                pos_in_steps = [i for i, st in enumerate(steps) if st[0] == 'query'][pos]     # this occurrence, not a later one
                 earlier = steps[:pos_in_steps]
                 redefined_before = any(k == 'ns' and 'class K' in s_ for k, s_ in earlier)
                 # A deviation is filed under a known mechanism only if the intervention that disables exactly that
